@@ -474,6 +474,22 @@ silent('s-gen5-star-fresh-states', ['C08'], 'X* built with two fresh states and 
 silent('s-gen5-alt-always-fresh', ['C08'], 'a single alternative also gets fresh start and end states',
        (GP, "        if self.value != \"|\":\n            return a, z\n        else:\n", "        if False:\n            return a, z\n        else:\n"))
 
+# MEMO-1 key completeness of the write-once memos
+fire('memo1-grammar-key-path-only', ['C18'], ['MEMO-1'], 'the loaded-grammar memo is keyed by the path only again (F17 reverted)',
+     (GRAMMAR, "    key = path, version_info.major, version_info.minor\n", "    key = path\n"))
+fire('memo1-second-memo-by-version', ['C18'], ['MEMO-1'], 'a second memo keyed by the version also stores custom-path grammars (rt5-C18)',
+     (GRAMMAR, "            return _loaded_grammars.setdefault(key, grammar)\n", "            _loaded_grammars.setdefault((version_info.major, version_info.minor), grammar)\n            return _loaded_grammars.setdefault(key, grammar)\n"))
+fire('memo1-token-collection-constant-key', ['C18'], ['MEMO-1'], 'the token-collection memo ignores the version',
+     (TOK, "        _token_collection_cache[tuple(version_info)] = result = \\\n", "        _token_collection_cache['tc'] = result = \\\n"))
+silent('s-memo1-key-inline', ['C18'], 'the grammar memo key is written inline at both sites',
+       (GRAMMAR, "        return _loaded_grammars[key]\n", "        return _loaded_grammars[path, version_info.major, version_info.minor]\n"))
+
+# atomic pickle writer (rt5-C17 and its correct twin)
+fire('cache-atomic-writer-unbound-tmp', ['C17'], ['DA'], 'write-to-temporary-then-rename whose clean-up handler reads the temp name although mkstemp itself may have failed',
+     (CACHE, "    with open(_get_hashed_path(hashed_grammar, path, cache_path=cache_path), 'wb') as f:\n        pickle.dump(item, f, pickle.HIGHEST_PROTOCOL)\n", "    cache_file = _get_hashed_path(hashed_grammar, path, cache_path=cache_path)\n    directory, name = os.path.split(cache_file)\n    import tempfile\n    try:\n        fd, tmp_path = tempfile.mkstemp(prefix=name + '.', suffix='.tmp', dir=directory)\n        with os.fdopen(fd, 'wb') as f:\n            pickle.dump(item, f, pickle.HIGHEST_PROTOCOL)\n        os.replace(tmp_path, cache_file)\n    except BaseException:\n        try:\n            os.remove(tmp_path)\n        except FileNotFoundError:\n            pass\n        raise\n"))
+silent('s-cache-atomic-writer', ['C16', 'C17'], 'the pickle is written to a temporary file and moved into place (mkstemp before the try)',
+       (CACHE, "    with open(_get_hashed_path(hashed_grammar, path, cache_path=cache_path), 'wb') as f:\n        pickle.dump(item, f, pickle.HIGHEST_PROTOCOL)\n", "    cache_file = _get_hashed_path(hashed_grammar, path, cache_path=cache_path)\n    directory, name = os.path.split(cache_file)\n    import tempfile\n    fd, tmp_path = tempfile.mkstemp(prefix=name + '.', suffix='.tmp', dir=directory)\n    try:\n        with os.fdopen(fd, 'wb') as f:\n            pickle.dump(item, f, pickle.HIGHEST_PROTOCOL)\n        os.replace(tmp_path, cache_file)\n    except BaseException:\n        try:\n            os.remove(tmp_path)\n        except OSError:\n            pass\n        raise\n"))
+
 # TOK-3 typestate
 fire('tok3-comment-drops-prefix', ['C01', 'C09'], ['TOK-3'], 'a comment inside brackets replaces the pending prefix instead of extending it',
      (TOK, "                else:\n                    additional_prefix = prefix + token\n            elif token in triple_quoted:", "                else:\n                    additional_prefix = token\n            elif token in triple_quoted:"))
